@@ -67,6 +67,18 @@ CHECKS = {
          "Reference-model monitor for the Ingress/Route -> Service -> workload chain composed with the policy model for an arbitrary unlabelled source; every workload's {ingress-controller} line is compared with the model (presence, exact ports) and blocked backends must be named by a warning. The committed witness of the known finding (Ingress number read as targetPort) is replayed first. Held on the K worlds in the evidence.",
          "Designations the statement leaves ambiguous are not generated; service selectors non-empty; service port protocols TCP/defaulted.",
          "runtime monitoring: reference-model oracle over observed list results and warnings", "DESIGN.md §5 C10"),
+ 'C06': ('exploration',
+         "Three monitors over exposure runs of the real library: (a) relational - base connectivity with and without the flag, point-wise; (b) protected flags against the model's 'governed' predicate; (c) reference-model soundness of every reported entry on hypothetical pods enumerated exhaustively over the vocabulary (label sets x existing/new namespaces x named-port declarations). Held on the K worlds / P hypothetical pods in the evidence.",
+         "Own selector matcher; entry selectors via the public API, named ports via the alias export; residual named ports of ingress entries denote nothing.",
+         "runtime monitoring: reference-model oracle on hypothetical pods + relational oracle over paired runs", "DESIGN.md §5 C06"),
+ 'C07': ('exploration',
+         "Reference-model completeness monitor: for every protected (workload, direction) and every hypothetical pod of the exhaustive vocabulary enumeration, the points allowed through non-omitted rule peers must be covered by the union of the entire-cluster exposure and the entries the pod satisfies. Held on the K worlds / P hypothetical pods in the evidence.",
+         "The documented omission is applied generously (can only weaken the oracle); same API reading as C06.",
+         "runtime monitoring: reference-model coverage oracle on hypothetical pods", "DESIGN.md §5 C07"),
+ 'C08': ('exploration',
+         "Byte-equality monitor over recorded groups of executions of one resource set: V layout variants (shuffled documents, one file per document, nested directories, permuted rules/peers) x R repetitions in fresh analyzers x list txt/json/csv/md/dot x exposure off/on + diff txt/csv/md/dot, a slice through the binary (fresh process, fresh hash seed); the number of distinct internal iteration orders seen is measured from the returned []Peer order. Held on the K inputs / N outputs in the evidence.",
+         "Only the map orders the runtime actually produced are observed; evidence states how many distinct orders were seen.",
+         "runtime monitoring: determinism monitor over repeated executions under varied layouts and map orders", "DESIGN.md §5 C08"),
 }
 
 NOT_YET = "check not built yet (construction in progress, see DESIGN.md section 9)"
